@@ -34,6 +34,9 @@ CHECKS = {
  "C07": dict(engine="I", tech=I, ref="DESIGN.md §3 C07",
    text="Per layout (3 node widths x node-at-lowest x 3 epochs, one process each): ids from a boundary timestamp family (0,1,999..,2^k±1,max width, calendar boundaries ±1 ms for 2000-2300, every millisecond of windows at 8 anchor dates) x (node,step) corners plus ALL low-bit values for 1 (quick) / 3 (thorough) timestamps: IDFields/recombine, IDParse/IDParseEx, CnStyle/FromChStyle (24 chars, exact text), order of adjacent ids; TimeBetweenID/TimeIDRange for all ordered pairs of boundary instants with ids probed around both endpoints.",
    note="structured family instead of all 2^63 ids; config globals set through the overlay hook VerifSetConfig"),
+ "C12": dict(engine="H", tech=H, ref="DESIGN.md §3 C12",
+   text="Per queue type (q.Q, async.Q, mux.Q, mq.MQ, SyncQueue, PriQueue) and capacity: plain enumeration of all sequences of non-blocking calls to depth 5 quick / 7 thorough without merging, plus breadth-first with merging on the list-model state to depth 10/14; after every step the result, IsClosed/IsCleared/Len and a complete drain of a replayed copy are compared with a list model (two lists for MQ, stable priority order for PriQueue).",
+   note="only calls that cannot block are issued; try-close on a closed / try-clear on a cleared queue may answer either way; PriQueue capacity 0 left out"),
 }
 NA = {}
 
